@@ -147,10 +147,10 @@ FairSpec == Init /\ [][Next]_vars
 \* feat: the scenario's features; conformant: every view equals what the final stage wrote.
 \* Deviations on the text views only (the raw bytes and the exit code stay right):
 ObsDevEnabled(d, feat) ==
-  CASE d = "Dev_DecodePerRead" ->       \* text is decoded, CR/CRLF-normalised and stripped of escapes per read, not per
-                                        \* stream: a multi-byte character, a CRLF or an escape sequence split by a read
-                                        \* boundary is mangled / doubled / kept
-         feat.payload \in {"utf8", "crlf", "ansi"} /\ feat.multiread /\ feat.view \in {"out", "iter"}   \* multiread: more than one read size, or written in several chunks
+  CASE d = "Dev_DecodePerRead" ->       \* escape sequences are stripped from each piece read, not from the stream: one
+                                        \* that is split by a read boundary is kept (multi-byte characters and CRLFs split
+                                        \* the same way were repaired in /repo 21c8c3c)
+         feat.payload = "ansi" /\ feat.multiread /\ feat.view \in {"out", "iter"}   \* multiread: more than one read size, or written in several chunks
     [] d = "Dev_DollarKeepsEscapes" ->  \* $() does not strip terminal escape sequences (the other text views do)
          feat.payload = "ansi" /\ feat.view = "dollar"
     [] OTHER -> FALSE
